@@ -283,6 +283,8 @@ package lib
 //@ func (r *RegisteredDecoys) TrackIfNotExists(d *DecoyRegistration) (bool, error)
 //@   requires r != nil && d != nil && !held(&r.m) && rheld(&r.m) == 0
 //@   ensures @C09: !held(&r.m) && rheld(&r.m) == 0
+// (C10: like Track, it announces nothing)
+//@   callsonly @C10: RWMutex).Lock, RWMutex).Unlock, RegisteredDecoys).track, RegisteredDecoys).registrationExists, Logger).
 
 // "announced to the detector as new exactly once per lifetime": the announcement happens inside the critical section
 // in which the tracked registration's Valid flag flips from false to true, and only there.
